@@ -239,3 +239,40 @@ func VerifC09_orders() {
 	render(vfChoice("second", 6))
 	vfAssert(true, "orders-no-panic")
 }
+
+type vfStopWriter struct {
+	stopAt, calls int
+	got           []byte
+}
+
+type vfStopErr struct{}
+
+func (vfStopErr) Error() string { return "destination full" }
+
+func (w *vfStopWriter) Write(p []byte) (int, error) {
+	i := w.calls
+	w.calls++
+	if w.stopAt >= 0 && i >= w.stopAt {
+		return 0, vfStopErr{}
+	}
+	w.got = append(w.got, p...)
+	return len(p), nil
+}
+
+// VerifC09_destinations: "complete output or an error" also holds for RenderTo into a destination that
+// stops accepting data at some write: no panic, and a nil result means the destination holds exactly
+// what Render returns.
+func VerifC09_destinations() {
+	t := tabular.New()
+	t.AddHeaders("h1", "h2")
+	t.AddRowItems("a", "b")
+	t.AddSeparator()
+	t.AddRowItems("c")
+	style := []string{"csv", "json", "markdown", "texttable", "html", "none"}[vfChoice("format", 6)]
+	want, werr := Render(t, style)
+	vfAssert(werr == nil, "destinations-render-ok")
+	w := &vfStopWriter{stopAt: vfInt("k", -1, 6)}
+	err := RenderTo(t, w, style)
+	vfAssert(vfOr(err != nil, string(w.got) == want), "nil-result-means-complete-output")
+	vfObserveBool("err", err != nil)
+}
